@@ -40,6 +40,12 @@ def reqsOf (prog : List (Instr N)) (r : N) : List Req := reqsFrom r 0 prog
 stores the sorted, de-duplicated tuple of sources) -/
 def ProgOK (prog : List (Instr N)) : Prop := ∀ ins ∈ prog, ins.srcs.Nodup
 
+/-- Bool version of `ProgOK` for the driver -/
+def progOK (prog : List (Instr N)) : Bool := prog.all (fun ins => decide ins.srcs.Nodup)
+
+theorem progOK_iff (prog : List (Instr N)) : progOK prog = true ↔ ProgOK prog := by
+  simp [progOK, ProgOK]
+
 theorem push_cons_ne_nil (g : Group) (X : Queue) (hX : X ≠ []) (wr : Bool) (o : Nat) :
     Queue.push (g :: X) wr o = g :: Queue.push X wr o := by
   cases X with
@@ -1448,6 +1454,7 @@ theorem HazInv.step {p : Proc N} {prog : List (Instr N)} (hwf : wfProc p = true)
     cases hw : wasLoaded (s.util.get u.name) y.idx <;> simp [hl, hw] at hS ⊢ <;>
     cases L <;> cases W <;> rfl
 
+omit [LT N] [DecidableRel (α := N) (· < ·)] in
 /-- **What is known when an instruction is examined** (it has an origin in unit `u` of the next record and is not yet
 loaded there): no access of a kind its unit locks has been granted to it before, and in a unit holding only the write
 lock its read access has been granted. -/
@@ -1765,6 +1772,416 @@ theorem read_le_write {p : Proc N} {prog : List (Instr N)} (hwf : wfProc p = tru
     have := accs_unique hwf hprog hd hr ht'
     have hlt' : t' < tw := by simpa using hlt
     omega
+
+/-! ## 9. Exactness of the data-stall test, state level -/
+
+section exact
+omit [LT N] [DecidableRel (α := N) (· < ·)]
+
+/-- `Spec.mustWait` with "performed before the cycle" given abstractly by `G` -/
+def mustWaitG (c : Ctx N) (G : Bool → Nat → Bool) (i : Nat) (u : UnitM N) : Bool :=
+  (u.rd && (c.srcs i).any (fun r => (List.range i).any (fun h => c.writes h r && !G true h))) ||
+  (u.wr && (match c.dst? i with
+    | none => false
+    | some r =>
+      (List.range i).any (fun h => (c.writes h r && !G true h) || (c.reads h r && !G false h))
+      || (c.reads i r && !(G false i || u.rd))))
+
+theorem mustWait_eq_G (c : Ctx N) (G : Bool → Nat → Bool) (i t : Nat) (u : UnitM N)
+    (h : ∀ k j, c.doneBefore k j t = G k j) : mustWait c i t u = mustWaitG c G i u := by
+  unfold mustWait mustWaitG
+  simp only [h]
+  cases c.dst? i <;> rfl
+
+theorem writes_iff (c : Ctx N) (h : Nat) (r : N) : c.writes h r = true ↔ (true, h) ∈ reqsOf c.prog r := by
+  rw [mem_reqsOf]
+  unfold Ctx.writes Ctx.dst?
+  cases c.prog[h]? with
+  | none => simp
+  | some ins => simp
+
+theorem reads_iff (c : Ctx N) (h : Nat) (r : N) : c.reads h r = true ↔ (false, h) ∈ reqsOf c.prog r := by
+  rw [mem_reqsOf]
+  unfold Ctx.reads Ctx.srcs
+  cases c.prog[h]? with
+  | none => simp
+  | some ins => simp
+
+/-- an older write on `r` is outstanding iff a write of an older owner is pending in the queue of `r` -/
+theorem olderWrite_iff {p : Proc N} {prog : List (Instr N)} {s : SimState N} (hinv : PlanInv p prog s) (c : Ctx N)
+    (hc : c.prog = prog) (i : Nat) (r : N) :
+    (List.range i).any (fun h => c.writes h r && !grantedB p s.table true h) = true ↔
+      ∃ y ∈ abs (s.queues.get r), y.1 = true ∧ y.2 < i := by
+  simp only [List.any_eq_true, List.mem_range, Bool.and_eq_true, Bool.not_eq_true', writes_iff, hc]
+  constructor
+  · rintro ⟨h, hlt, hw, hg⟩
+    exact ⟨(true, h), hinv.mem_abs.2 ⟨hw, hg⟩, rfl, hlt⟩
+  · rintro ⟨⟨k, h⟩, hy, hk, hlt⟩
+    simp only at hk hlt
+    subst hk
+    obtain ⟨h1, h2⟩ := hinv.mem_abs.1 hy
+    exact ⟨h, hlt, h1, h2⟩
+
+/-- an older access on `r` is outstanding iff a request of an older owner is pending in the queue of `r` -/
+theorem olderAny_iff {p : Proc N} {prog : List (Instr N)} {s : SimState N} (hinv : PlanInv p prog s) (c : Ctx N)
+    (hc : c.prog = prog) (i : Nat) (r : N) :
+    (List.range i).any (fun h => (c.writes h r && !grantedB p s.table true h) ||
+        (c.reads h r && !grantedB p s.table false h)) = true ↔
+      ∃ y ∈ abs (s.queues.get r), y.2 < i := by
+  simp only [List.any_eq_true, List.mem_range, Bool.or_eq_true, Bool.and_eq_true, Bool.not_eq_true', writes_iff,
+    reads_iff, hc]
+  constructor
+  · rintro ⟨h, hlt, ⟨hw, hg⟩ | ⟨hw, hg⟩⟩
+    · exact ⟨(true, h), hinv.mem_abs.2 ⟨hw, hg⟩, hlt⟩
+    · exact ⟨(false, h), hinv.mem_abs.2 ⟨hw, hg⟩, hlt⟩
+  · rintro ⟨⟨k, h⟩, hy, hlt⟩
+    obtain ⟨h1, h2⟩ := hinv.mem_abs.1 hy
+    cases k with
+    | true => exact ⟨h, hlt, Or.inl ⟨h1, h2⟩⟩
+    | false => exact ⟨h, hlt, Or.inr ⟨h1, h2⟩⟩
+
+theorem canAll_exact {qs : Queues N} {wr : Bool} {i : Nat} {rs : List N}
+    (h : ∀ r ∈ rs, ∃ b, (qs.get r).canAccess wr i = some b) :
+    ∃ b, canAll qs wr i rs = .ok b ∧ (b = true ↔ ∀ r ∈ rs, (qs.get r).canAccess wr i = some true) := by
+  have hex : ∃ b, canAll qs wr i rs = .ok b := by
+    induction rs with
+    | nil => exact ⟨true, rfl⟩
+    | cons r rs ih =>
+      obtain ⟨b, hb⟩ := h r List.mem_cons_self
+      unfold canAll
+      cases b with
+      | false => exact ⟨false, by simp [hb]⟩
+      | true =>
+        obtain ⟨b', hb'⟩ := ih (fun r' hr' => h r' (List.mem_cons_of_mem _ hr'))
+        exact ⟨b', by simp [hb, hb']⟩
+  obtain ⟨b, hb⟩ := hex
+  refine ⟨b, hb, ?_⟩
+  rw [← canAll_ok_true_iff, hb]
+  constructor
+  · intro e; rw [e]
+  · intro e; injection e
+
+/-- **the read test is exact**: it answers `False` iff an older write on a source is outstanding -/
+theorem rdTest_exact {p : Proc N} {prog : List (Instr N)} {s : SimState N} (hinv : PlanInv p prog s) {u : UnitM N}
+    {i : Nat} {ins : Instr N} (hins : prog[i]? = some ins)
+    (hng : u.rd = true → grantedB p s.table false i = false) (c : Ctx N) (hc : c.prog = prog) :
+    ∃ b, rdTest s.queues u i ins = .ok b ∧
+      (b = false ↔ (u.rd && (c.srcs i).any (fun r =>
+        (List.range i).any (fun h => c.writes h r && !grantedB p s.table true h))) = true) := by
+  unfold rdTest
+  cases hrd : u.rd with
+  | false => exact ⟨true, rfl, by simp⟩
+  | true =>
+    have hsrcs : c.srcs i = ins.srcs := by simp [Ctx.srcs, hc, hins]
+    have hpend : ∀ r ∈ ins.srcs, (false, i) ∈ abs (s.queues.get r) := fun r hr =>
+      hinv.mem_abs.2 ⟨mem_reqsOf.2 ⟨ins, hins, by simpa using hr⟩, hng hrd⟩
+    have hsome : ∀ r ∈ ins.srcs, ∃ b, (s.queues.get r).canAccess false i = some b := by
+      intro r hr
+      rw [canAccess_refines (hinv.wf r)]
+      exact canServe_isSome (fun e => by have := hpend r hr; rw [e] at this; cases this) _ _
+    obtain ⟨b, hb, hiff⟩ := canAll_exact hsome
+    refine ⟨b, by simpa using hb, ?_⟩
+    simp only [Bool.true_and, hsrcs]
+    rw [List.any_eq_true]
+    have hb' : b = false ↔ ¬ (∀ r ∈ ins.srcs, (s.queues.get r).canAccess false i = some true) := by
+      rw [← hiff]; cases b <;> simp
+    rw [hb']
+    constructor
+    · intro hne
+      false_or_by_contra
+      rename_i hno
+      apply hne
+      intro r hr
+      rw [canAccess_refines (hinv.wf r), canServe_sorted_iff (hinv.sorted r) (hpend r hr)]
+      intro y hy hk
+      simp only [Bool.false_eq_true, if_false]
+      cases hy1 : y.1 with
+      | false => rfl
+      | true =>
+        exfalso
+        apply hno
+        refine ⟨r, hr, (olderWrite_iff hinv c hc i r).2 ⟨y, hy, hy1, ?_⟩⟩
+        obtain ⟨k, h⟩ := y
+        simp only at hy1; subst hy1
+        simp [key] at hk; omega
+    · rintro ⟨r, hr, hany⟩ hall
+      obtain ⟨y, hy, hy1, hlt⟩ := (olderWrite_iff hinv c hc i r).1 hany
+      have := hall r hr
+      rw [canAccess_refines (hinv.wf r), canServe_sorted_iff (hinv.sorted r) (hpend r hr)] at this
+      have := this y hy (by obtain ⟨k, h⟩ := y; simp only at hy1 hlt; subst hy1; simp [key]; omega)
+      simp only [Bool.false_eq_true, if_false] at this
+      rw [this] at hy1; cases hy1
+
+/-- **the write test is exact**: it answers `False` iff an older access on the destination is outstanding -/
+theorem wrTest_exact {p : Proc N} {prog : List (Instr N)} {s : SimState N} (hinv : PlanInv p prog s) {u : UnitM N}
+    {i : Nat} {ins : Instr N} (hins : prog[i]? = some ins)
+    (hng : u.wr = true → grantedB p s.table true i = false)
+    (hrf : u.wr = true → u.rd = false → grantedB p s.table false i = true) (c : Ctx N) (hc : c.prog = prog) :
+    ∃ b, wrTest s.queues u i ins = .ok b ∧
+      (b = false ↔ (u.wr && (match c.dst? i with
+        | none => false
+        | some r =>
+          (List.range i).any (fun h => (c.writes h r && !grantedB p s.table true h) ||
+            (c.reads h r && !grantedB p s.table false h))
+          || (c.reads i r && !(grantedB p s.table false i || u.rd)))) = true) := by
+  unfold wrTest
+  cases hwr : u.wr with
+  | false => exact ⟨true, rfl, by simp⟩
+  | true =>
+    have hdst : c.dst? i = some ins.dst := by simp [Ctx.dst?, hc, hins]
+    have hpend : (true, i) ∈ abs (s.queues.get ins.dst) :=
+      hinv.mem_abs.2 ⟨mem_reqsOf.2 ⟨ins, hins, by simp⟩, hng hwr⟩
+    have hsome : ∀ r ∈ [ins.dst], ∃ b, (s.queues.get r).canAccess true i = some b := by
+      intro r hr
+      simp only [List.mem_singleton] at hr; subst hr
+      rw [canAccess_refines (hinv.wf _)]
+      exact canServe_isSome (fun e => by rw [e] at hpend; cases hpend) _ _
+    obtain ⟨b, hb, hiff⟩ := canAll_exact hsome
+    refine ⟨b, by simpa using hb, ?_⟩
+    have hextra : (c.reads i ins.dst && !(grantedB p s.table false i || u.rd)) = false := by
+      cases hrd : u.rd with
+      | true => simp
+      | false => simp [hrf hwr hrd]
+    simp only [Bool.true_and, hdst, hextra, Bool.or_false]
+    rw [olderAny_iff hinv c hc i ins.dst]
+    have hb' : b = false ↔ ¬ ((s.queues.get ins.dst).canAccess true i = some true) := by
+      have : b = true ↔ (s.queues.get ins.dst).canAccess true i = some true := by simpa using hiff
+      rw [← this]; cases b <;> simp
+    rw [hb', canAccess_refines (hinv.wf _), canServe_sorted_iff (hinv.sorted _) hpend]
+    simp only [if_true]
+    constructor
+    · intro hne
+      false_or_by_contra
+      rename_i hno
+      apply hne
+      intro y hy hk
+      obtain ⟨k, h⟩ := y
+      have hge : ¬ h < i := fun hlt => hno ⟨(k, h), hy, hlt⟩
+      cases k <;> simp [key] at hk ⊢ <;> omega
+    · rintro ⟨y, hy, hlt⟩ hall
+      have := hall y hy (by obtain ⟨k, h⟩ := y; simp only at hlt; cases k <;> simp [key] <;> omega)
+      rw [this] at hlt
+      exact Nat.lt_irrefl _ hlt
+
+/-- **`_regs_avail` is exact** for an examined instruction of a reachable state: it never raises, and it refuses iff
+`mustWait` (w.r.t. the accesses shown in the recorded rows) holds. -/
+theorem regsAvail_exact {p : Proc N} {prog : List (Instr N)} (hwf : wfProc p = true) {s : SimState N}
+    (hinv : HazardInv p prog s) {u : UnitM N} (hu : u ∈ p.allUnits) {i e' : Nat}
+    (ho : Stayed p s.util u.name i ∨ Moved p prog s.util u.name i ∨ Issued p prog s.entered e' u.name i)
+    (hwl : wasLoaded (s.util.get u.name) i = false) {ins : Instr N} (hins : prog[i]? = some ins)
+    (c : Ctx N) (hc : c.prog = prog) :
+    ∃ o, regsAvail s.queues u i ins = .ok o ∧ (o = none ↔ mustWaitG c (grantedB p s.table) i u = true) := by
+  obtain ⟨e1, e2, e3⟩ := examined_facts_origin hwf hinv.core hinv.host hu ho hwl
+  obtain ⟨b1, hb1, hi1⟩ := rdTest_exact hinv.plan hins e1 c hc
+  obtain ⟨b2, hb2, hi2⟩ := wrTest_exact hinv.plan hins e2 e3 c hc
+  rw [regsAvail_eq, hb1, hb2]
+  unfold mustWaitG
+  rw [Bool.or_eq_true, ← hi1, ← hi2]
+  cases b1 <;> cases b2 <;> simp
+
+/-- the label of an examined instruction: `D` iff `mustWait`, else `U` -/
+theorem labelOf_exact {p : Proc N} {prog : List (Instr N)} (hwf : wfProc p = true) {s : SimState N}
+    (hinv : HazardInv p prog s) {u : UnitM N} (hu : u ∈ p.allUnits) {i e' : Nat}
+    (ho : Stayed p s.util u.name i ∨ Moved p prog s.util u.name i ∨ Issued p prog s.entered e' u.name i)
+    (hwl : wasLoaded (s.util.get u.name) i = false) {ins : Instr N} (hins : prog[i]? = some ins)
+    (c : Ctx N) (hc : c.prog = prog) :
+    labelOf prog s.queues u (s.util.get u.name) i =
+      if mustWaitG c (grantedB p s.table) i u = true then .D else .U := by
+  obtain ⟨o, ho', hiff⟩ := regsAvail_exact hwf hinv hu ho hwl hins c hc
+  unfold labelOf
+  simp only [hwl, Bool.false_eq_true, if_false, hins, ho']
+  cases o with
+  | none => simp [hiff.1 rfl]
+  | some regs =>
+    have : ¬ mustWaitG c (grantedB p s.table) i u = true := fun h => by have := hiff.2 h; cases this
+    simp [this]
+
+end exact
+
+/-! ## 10. No fault: a cycle of a reachable state never raises -/
+
+section nofault
+omit [LT N] [DecidableRel (α := N) (· < ·)]
+
+theorem labelList_ok_of {prog : List (Instr N)} {qs : Queues N} {unit : UnitM N} {old l : List HI}
+    (h : ∀ x ∈ l, wasLoaded old x.idx = false →
+      ∃ ins o, prog[x.idx]? = some ins ∧ regsAvail qs unit x.idx ins = .ok o) :
+    ∃ r, labelList prog qs unit old l = .ok r := by
+  induction l with
+  | nil => exact ⟨_, rfl⟩
+  | cons x xs ih =>
+    obtain ⟨r, hr⟩ := ih (fun y hy => h y (List.mem_cons_of_mem _ hy))
+    unfold labelList
+    cases hw : wasLoaded old x.idx with
+    | true => simp [hr]
+    | false =>
+      obtain ⟨ins, o, hins, ho⟩ := h x List.mem_cons_self hw
+      simp only [Bool.false_eq_true, if_false, hins, ho, hr]
+      cases o <;> exact ⟨_, rfl⟩
+
+theorem labelAll_ok_of {units : List (UnitM N)} {prog : List (Instr N)} {qs : Queues N} {old : Util N} {F : Util N}
+    (h : ∀ e ∈ AMap.toList F, e.2 ≠ [] → ∃ unit, lookupUnit units e.1 = some unit ∧
+      ∀ x ∈ e.2, wasLoaded (old.get e.1) x.idx = false →
+        ∃ ins o, prog[x.idx]? = some ins ∧ regsAvail qs unit x.idx ins = .ok o) :
+    ∃ lab, labelAll units prog qs old F = .ok lab := by
+  induction F with
+  | nil => exact ⟨_, rfl⟩
+  | cons e rest ih =>
+    obtain ⟨n, l⟩ := e
+    obtain ⟨r, hr⟩ := ih (fun e' he' => h e' (List.mem_cons_of_mem _ he'))
+    unfold labelAll
+    by_cases hl : l.isEmpty = true
+    · simp [hl, hr]
+    · have hne : l ≠ [] := fun e => hl (List.isEmpty_iff.2 e)
+      obtain ⟨unit, hlu, hx⟩ := h (n, l) List.mem_cons_self hne
+      obtain ⟨rl, hrl⟩ := labelList_ok_of hx
+      simp only at hlu hrl
+      simp [hl, hlu, hrl, hr]
+
+theorem applyClears_ok_of {qs : Queues N} {cs : List (N × Nat)}
+    (h : ∀ r, ∃ q', runHistory (qs.get r) ((cs.filter (fun c => decide (c.1 = r))).map (·.2)) = some q') :
+    ∃ qs', applyClears qs cs = .ok qs' := by
+  induction cs generalizing qs with
+  | nil => exact ⟨_, rfl⟩
+  | cons c cs ih =>
+    obtain ⟨a, i⟩ := c
+    unfold applyClears
+    obtain ⟨q', hq'⟩ := h a
+    simp only [List.filter_cons, decide_true, if_true, List.map_cons, runHistory_cons] at hq'
+    cases hd : (qs.get a).dequeue i with
+    | none => rw [hd] at hq'; cases hq'
+    | some q =>
+      rw [hd, Option.bind_some] at hq'
+      simp only
+      apply ih
+      intro r
+      by_cases ha : a = r
+      · subst ha
+        rw [Queues.get_set_eq]; exact ⟨q', hq'⟩
+      · obtain ⟨q'', hq''⟩ := h r
+        simp only [List.filter_cons, ha, decide_false, Bool.false_eq_true, if_false] at hq''
+        rw [Queues.get_set_ne _ _ ha]; exact ⟨q'', hq''⟩
+
+end nofault
+
+/-- the labelling of a reachable state's filled record never raises (no `IndexError`/`KeyError` in `_chk_hazards`:
+`can_access` is never asked on an emptied queue) -/
+theorem labelAll_ok {p : Proc N} {prog : List (Instr N)} (hwf : wfProc p = true) {s : SimState N}
+    (hinv : HazardInv p prog s) :
+    ∃ lab, labelAll p.allUnits prog s.queues s.util (fillCycle p prog s.util s.entered).1 = .ok lab := by
+  have hn := wfProc_nodup_names hwf
+  have hFb := hinv.core.row.after_fillCycle hn prog
+  have hF := fillCycle_issueInv prog s.util s.entered hn (wfProc_orderOK hwf)
+  have hle := fillCycle_entered_le p prog s.util s.entered hinv.core.entered_le
+  apply labelAll_ok_of
+  intro e he hne
+  have hget : (fillCycle p prog s.util s.entered).1.get e.1 = e.2 := Util.get_of_mem hFb.keys_nodup he
+  obtain ⟨u, hu, hun⟩ := List.mem_map.1 (hFb.names e.1 (by rw [hget]; exact hne))
+  refine ⟨u, by rw [← hun]; exact lookupUnit_of_mem hn hu, ?_⟩
+  intro x hx hwl
+  rw [← hget, ← hun] at hx
+  have hlt := hFb.idx_lt _ x hx
+  obtain ⟨ins, hins⟩ : ∃ ins, prog[x.idx]? = some ins :=
+    ⟨prog[x.idx]'(by omega), List.getElem?_eq_getElem (by omega)⟩
+  rw [← hun] at hwl
+  obtain ⟨o, ho, _⟩ := regsAvail_exact hwf hinv hu (hF.origin u.name x hx) hwl hins (ctx p prog [] false) rfl
+  exact ⟨ins, o, hins, ho⟩
+
+/-- the deferred dequeues of a reachable state's cycle never raise -/
+theorem applyClears_ok {p : Proc N} {prog : List (Instr N)} (hwf : wfProc p = true) (hprog : ProgOK prog)
+    {s : SimState N} (hinv : HazardInv p prog s) {lab : Util N × List (N × Nat)}
+    (hlab : labelAll p.allUnits prog s.queues s.util (fillCycle p prog s.util s.entered).1 = .ok lab) :
+    ∃ qs, applyClears s.queues lab.2 = .ok qs := by
+  apply applyClears_ok_of
+  intro r
+  rw [clears_owners hprog hlab r]
+  have hb := rowReqs_batch hwf hinv.core hinv.plan (hinv.host.readFirst hwf hinv.core) r
+  have href := runHistory_refines (hinv.plan.wf r)
+    ((rowReqs p.allUnits prog s.queues s.util (fillCycle p prog s.util s.entered).1 r).map (·.2))
+  rw [hb] at href
+  cases hr : runHistory (s.queues.get r)
+      ((rowReqs p.allUnits prog s.queues s.util (fillCycle p prog s.util s.entered).1 r).map (·.2)) with
+  | none => rw [hr] at href; cases href
+  | some q' => exact ⟨q', rfl⟩
+
+/-- **A cycle of a reachable state never raises.** -/
+theorem runCycle_ok {p : Proc N} {prog : List (Instr N)} (hwf : wfProc p = true) (hprog : ProgOK prog)
+    {s : SimState N} (hinv : HazardInv p prog s) : ∃ o, runCycle p prog s = .ok o := by
+  obtain ⟨lab, hlab⟩ := labelAll_ok hwf hinv
+  obtain ⟨qs, hclr⟩ := applyClears_ok hwf hprog hinv hlab
+  unfold runCycle
+  simp only [hlab, hclr]
+  split <;> exact ⟨_, rfl⟩
+
+theorem simLoop_fault {p : Proc N} {prog : List (Instr N)} (Inv : SimState N → Prop)
+    (hstep : ∀ s s', Inv s → runCycle p prog s = .ok (some s') → Inv s') :
+    ∀ fuel s f, Inv s → simLoop p prog fuel s = .fault f →
+      f = .fuel ∨ ∃ s', Inv s' ∧ runCycle p prog s' = .error f := by
+  intro fuel
+  induction fuel with
+  | zero =>
+    intro s f _ h
+    unfold simLoop at h
+    split at h
+    · cases h
+    · injection h with h; exact Or.inl h.symm
+  | succ fuel ih =>
+    intro s f hs h
+    unfold simLoop at h
+    split at h
+    · cases h
+    · cases hr : runCycle p prog s with
+      | error f' =>
+        rw [hr] at h
+        injection h with h
+        subst h
+        exact Or.inr ⟨s, hs, hr⟩
+      | ok o =>
+        rw [hr] at h
+        cases o with
+        | none => cases h
+        | some s' => exact ih s' f (hstep s s' hs hr) h
+
+/-- **`simulate` never raises**: for a well-formed processor and a program without repeated sources the only possible
+fault outcome of the model is running out of fuel (excluded by C08). -/
+theorem no_fault {p : Proc N} {prog : List (Instr N)} (hwf : wfProc p = true) (hprog : ProgOK prog) {f : Fault}
+    (h : simulate p prog = .fault f) : f = .fuel := by
+  rcases simLoop_fault (HazardInv p prog) (fun _ _ hs hr => hs.step hwf hprog hr) _ _ f (HazardInv.init p prog) h with
+    h | ⟨s', hs', hr⟩
+  · exact h
+  · obtain ⟨o, ho⟩ := runCycle_ok hwf hprog hs'
+    rw [ho] at hr; cases hr
+
+/-- no `IndexError` on an emptied access queue and no `KeyError`/`IndexError` in `dequeue` -/
+theorem no_queue_fault {p : Proc N} {prog : List (Instr N)} (hwf : wfProc p = true) (hprog : ProgOK prog) :
+    simulate p prog ≠ .fault .queueEmpty ∧ simulate p prog ≠ .fault .badDequeue := by
+  constructor
+  · intro h; have := no_fault hwf hprog h; cases this
+  · intro h; have := no_fault hwf hprog h; cases this
+
+omit [LT N] [DecidableRel (α := N) (· < ·)] in
+/-- **Exactness in the stall-detecting (unrecorded) cycle**: an instruction that is data-stalled in the last record and
+is labelled `D` again when that record is re-examined must wait w.r.t. the whole recorded diagram. -/
+theorem stalled_D_mustWait {p : Proc N} {prog : List (Instr N)} (hwf : wfProc p = true) {s : SimState N}
+    (hinv : HazardInv p prog s) {u : UnitM N} (hu : u ∈ p.allUnits) {x : HI} (hx : x ∈ s.util.get u.name)
+    (hxD : x.st = .D) (hl : labelOf prog s.queues u (s.util.get u.name) x.idx = .D) (stalled : Bool) :
+    mustWait (ctx p prog s.table.reverse stalled) x.idx s.table.length u = true := by
+  have hwl : wasLoaded (s.util.get u.name) x.idx = false := by
+    rw [wasLoaded_eq_of_mem (hinv.core.nd.nodup_unit u.name) hx, hxD]; rfl
+  have hlt := hinv.core.row.idx_lt _ x hx
+  have hle := hinv.core.entered_le
+  obtain ⟨ins, hins⟩ : ∃ ins, prog[x.idx]? = some ins :=
+    ⟨prog[x.idx]'(by omega), List.getElem?_eq_getElem (by omega)⟩
+  have ho : Stayed p s.util u.name x.idx ∨ Moved p prog s.util u.name x.idx ∨
+      Issued p prog s.entered s.entered u.name x.idx := Or.inl ⟨x, hx, rfl, fun _ => hxD⟩
+  have := labelOf_exact hwf hinv hu ho hwl hins (ctx p prog s.table.reverse stalled) rfl
+  rw [hl] at this
+  rw [mustWait_eq_G _ (grantedB p s.table)]
+  · by_cases hm : mustWaitG (ctx p prog s.table.reverse stalled) (grantedB p s.table) x.idx u = true
+    · exact hm
+    · rw [if_neg hm] at this; cases this
+  · intro k j
+    rw [doneBefore_eq, show s.table.length = s.table.reverse.length by simp, List.take_length, grantedB_reverse]
 
 end Hazards
 end ProcSim
